@@ -453,6 +453,20 @@ def plan_structure(ctx):
             ctx.model(f"mcord-c{cap}", "MCOrd", ord_consts(7, cap=cap), ORD_INV)
         ctx.model("mckey-c9", "MCKey", key_consts(3, 3, cap=9), KEY_INV)
         ctx.model("mckey-b", "MCKey", key_consts(5, 2), KEY_INV)
+    if ctx.pid == "C11":
+        # the storage bound as an inductive invariant of the integer abstraction of the pool, for arenas and
+        # histories of every size (Apalache / Z3); MCOrd / MCKey assert that every transition of the
+        # concrete model projects onto these abstract steps
+        w1 = apalache_check("PoolSym", "Init", "Next", "IndInv", ctx.wd)
+        shutil.copy(os.path.join(SPEC, "PoolSym.tla"), os.path.join(ctx.wd, "PoolSym.tla"))
+        p = subprocess.run(["apalache-mc", "check", "--init=IndInit", "--next=Next", "--inv=IndInv", "--length=1", "PoolSym.tla"],
+                           cwd=ctx.wd, stdout=subprocess.PIPE, stderr=subprocess.STDOUT, text=True, timeout=900)
+        shutil.rmtree(os.path.join(ctx.wd, "_apalache-out"), ignore_errors=True)
+        if p.returncode != 0 or "The outcome is: NoError" not in p.stdout:
+            raise ToolError("apalache: the inductive step of PoolSym!IndInv failed - the specification itself is broken:\n" + "\n".join(p.stdout.splitlines()[-12:]))
+        ctx.notes.append({"inductive_invariant": "PoolSym!IndInv (arena slots <= 3 * (peak + 1) + max(hint, 8), unbounded): base case and inductive step "
+                          "discharged by apalache-mc (outcome NoError)", "wall_s": round(w1, 1)})
+        log("[apalache] PoolSym: IndInv holds initially and is inductive")
     futs = ord_cover_jobs(ctx, ["maptree-i32", "settree-i32"], 5 if q else 6, [0] if q else [0, 9], 2 if q else 4,
                           limit=160 if q else None)
     futs += key_cover_jobs(ctx, ["keytree"], 3, 3, [0] if q else [0, 9], 2 if q else 4, export=0, limit=200 if q else None)
